@@ -3,12 +3,12 @@ from vf.props import common as C
 
 def plan(tier):
     conds = []
-    conds += C.t_instr_conds("C17", tier)
-    conds += C.t_upd_conds("C17", tier)
+    conds += C.t_instr_conds("C03", tier)
+    conds += C.t_upd_conds("C03", tier, kinds=range(11))
     return {
         "conds": conds,
         "min_classes": 150,
-        "explanation": 'C17: I-req (a request that records a modelled dispatched vehicle => that vehicle is in DispatchTrip to it) is re-established by every instruction and every vehicle update, incl. the out-of-energy path.',
+        "explanation": 'C03: request status changes only waiting->onboard (one pickup event, fare credited once to the picking vehicle, at the origin), onboard->done (one drop-off event at the destination by the carrying vehicle) or waiting->cancelled; instructions never resolve or lose a request and cannot divert a vehicle carrying passengers. One-step preservation gives exactly-once over histories.',
         "entry_points": ['step_simulation_ops.apply_instructions', 'step_simulation_ops.step_vehicle (VehicleState.update -> default_update -> move/charge/idle/pick_up_trip/drop_off_trip)'],
         "bounds": C.ARENA_BOUNDS + C.T_BOUNDS,
         "outside": C.T_OUTSIDE,
